@@ -227,7 +227,7 @@ ENVNOTE = 'Kani tier runs the real crate against the assumed Bevy of /verif/env 
 PROPS = {
     'C01': dict(category='other', design_ref='DESIGN.md 5/C01',
         text='Registration tables as abstract maps key -> list: Verus proves on the verbatim text, for tables and lists of ANY size, that each of the 7 ReactCache::register_* functions appends exactly one handle to exactly the list named by (kind, key) and leaves every other list of every table unchanged, and that schedule_resource_mutation_reaction / schedule_broadcast_reaction queue exactly one command per entry of the trigger type\'s list, in order, with the right reactor id (and nothing for an empty list). schedule_insertion_reaction / schedule_mutation_reaction / schedule_entity_reaction_impl are likewise proved for per-entity and type-wide lists of any length (Verus, verbatim, against an assumed sequence stand-in for Vec and the assumed contract of EntityReactors::iter_rtype). Kani discharges on the real code, for bounded shapes, the functions outside Verus\' subset: EntityReactors::{insert,remove,count,iter_rtype,iter_reactors} (lists L<=3, all contents), ReactCache::revoke_* (neighbours keep their entries), schedule_entity_event_reaction, and restates schedule_{insertion,mutation}_reaction on the compiled code (entity-scoped + type-wide listeners, wrong-kind / wrong-type entries present and not fired). Lemma L3 (Verus) lifts register/revoke contracts to arbitrary histories on one key. Level other: the schedule_* functions with Query access are bounded stand-ins; that Bevy applies the scheduling command in-line is runner/queue semantics (C02/C09, not applicable).',
-        note=ENVNOTE + '; maps = finite partial maps (hashing not modelled); ReactionTrigger::register per trigger type and syscommand_runner not under contract',
+        note=ENVNOTE + '; maps = finite partial maps (hashing not modelled); Vec as an assumed sequence stand-in in units cache_revoke / dispatch; tuple trigger bundles (macro-generated) and the replay closure of syscommand_runner not under contract',
         explanation='register_* x7 + 2 type-wide schedule fns proved unbounded (Verus, verbatim); entity-scoped dispatch, EntityReactors and revoke_* bounded (Kani); history lemma L3'),
     'C03': dict(category='other', design_ref='DESIGN.md 5/C03',
         text='Contracts on the four access trackers, every event reader and the setup/cleanup functions of commands.rs: prepare = append, end clears (Verus, unbounded, verbatim); start(r) claims the oldest entry parked for r and leaves the rest in order (Kani, every content of lists of length 0..3 quick / 0..5 thorough); Insertion/Mutation/Removal/DespawnEvent::get return the current reaction\'s source iff the tracker is reacting AND kind AND component type id are the reader\'s, generically in the component type (Verus, verbatim); Broadcast/EntityEvent readers and SystemEvent::take likewise for payload types u32/u16 (Kani, loop-free; a second take in the same run reads nothing); each command\'s apply parks its metadata in exactly the tracker(s) of its kind and hands the runner the (start, end) pair of that kind (Verus, verbatim); start_X/end_X start/stop exactly the trackers of kind X (Verus, verbatim, against the assumed World contract); cleanup_on_abort = setup then cleanup, unconditionally (Verus). Lemma L1 (Verus) lifts the start contract to: for any interleaving of parked events each run of a system receives the oldest metadata parked for it. Not covered: that the runner replays postponed commands in parking order (runner-level histories; known finding F3).',
@@ -274,8 +274,10 @@ PROPS = {
         note=ENVNOTE,
         explanation='dead-target paths of revoke walk, payload cleanup and abort proved by Verus; no-panic/no-effect harnesses by Kani; runner not covered'),
 }
-PENDING = {k: 'not claimed in this build: see DESIGN.md 9.5'
-           for k in ['C08','C17']}
+PENDING = {
+    'C08': 'the obligations within reach (track_removals, ReactCache::register_despawn_reactor, DespawnTrigger / EntityRemovalTrigger::register) do not decide the statement: detection itself is Bevy (RemovedComponents, component drop on despawn), schedule_removal_reactions and the register_despawn_reactor system use closures taking &mut World (outside Verus\' subset), and Kani harnesses for schedule_despawn_reactions / register_despawn_reactor exceed the cost rule (ReactCache inside a World: > 600-900 s); DESIGN.md 9.5',
+    'C17': 'syscall / named_syscall_direct use function-pointer validation and closures taking &mut (outside Verus\' subset); their Kani harnesses (World resource remove/insert + boxed systems) exceed the cost rule (> 1200 s each, alone on 16 cores); only spawned_syscall on missing targets and CallbackSystem::run_with_cleanup are discharged, which does not decide the statement; DESIGN.md 9.5',
+}
 for k, v in NA.items():
     assert k not in PROPS
 
